@@ -88,6 +88,7 @@ BASE = {
     "roomL": [[((0, 0, 0), (6, 3, 4)), ((0, 3, 0), (3, 6, 4))]],
     "wall": [[((0, 0, 0), (6, 1, 4))]],
     "hall": [[((0, 0, 0), (16, 16, 6))]],
+    "hallL": [[((0, 0, 0), (12, 6, 4)), ((0, 6, 0), (6, 12, 4))]],
 }
 
 
@@ -142,6 +143,7 @@ def catalogue():
         _entry("roomL", "roomL"),
         _entry("wall", "wall", kind="box"),
         _entry("hall", "hall", kind="mesh"),
+        _entry("hallL", "hallL"),
     ]
     return cat
 
@@ -151,6 +153,7 @@ CAT_INDEX = {e["name"]: i + 1 for i, e in enumerate(CAT)}  # 1-based ids, as in 
 SMALL = [CAT_INDEX[n] for n in ("cube", "bar", "brick", "barM", "cube2", "L", "Lwide", "tripod", "U", "twin", "twinL")]
 LARGE = [CAT_INDEX[n] for n in ("big", "bigL")]
 BOXES = [CAT_INDEX[n] for n in ("cube", "bar", "brick", "cube2", "big")]
+BIGOBJ = [CAT_INDEX[n] for n in ("big", "big", "bigL", "cube2")]
 TILTABLE = [CAT_INDEX[n] for n in ("bar", "brick", "bar", "brick", "big")]  # BoxShapes that a tilt changes
 ROOMS = [CAT_INDEX[n] for n in ("big", "bigL", "room", "roomL")]
 
@@ -238,7 +241,16 @@ def real_pos(p):
     return tuple(v / S for v in p)
 
 
-def make_object(si, ri, pos, qi=1, **props):
+def frame(g):
+    """(orientation, position map) of the generic frame g: 0 = identity, 1 = yaw with cos 3/5, sin 4/5."""
+    from scenic.core.vectors import Orientation
+
+    if not g:
+        return None, (lambda p: p)
+    return Orientation.fromEuler(math.atan2(4, 3), 0, 0), (lambda p: ((3 * p[0] - 4 * p[1]) / 5, (4 * p[0] + 3 * p[1]) / 5, p[2]))
+
+
+def make_object(si, ri, pos, qi=1, g=0, **props):
     """Real scenic Object for catalogue id si (1-based), local rotation index ri (1-based: the
     object's own yaw / pitch / roll), position x4, parent rotation index qi (parentOrientation)."""
     from scenic.core.object_types import Object
@@ -247,24 +259,28 @@ def make_object(si, ri, pos, qi=1, **props):
     e = CAT[si - 1]
     yaw, pitch, roll = rot_angles(ri - 1)
     w, l, h = e["dims"]
-    if qi != 1:
-        props["parentOrientation"] = Orientation.fromEuler(*rot_angles(qi - 1))
+    G, move = frame(g)
+    if qi != 1 or g:
+        po = Orientation.fromEuler(*rot_angles(qi - 1))
+        props["parentOrientation"] = G * po if g else po
     return Object._with(
-        position=real_pos(pos), shape=real_shape(e), width=w, length=l, height=h,
+        position=move(real_pos(pos)), shape=real_shape(e), width=w, length=l, height=h,
         yaw=yaw, pitch=pitch, roll=roll, **props,
     )
 
 
-def make_region(si, ri, pos):
+def make_region(si, ri, pos, g=0):
     """Real MeshVolumeRegion (no precomputed shape data) for the same solid."""
     from scenic.core.regions import MeshVolumeRegion
     from scenic.core.vectors import Orientation, Vector
 
     e = CAT[si - 1]
     yaw, pitch, roll = rot_angles(ri - 1)
+    G, move = frame(g)
+    rot = Orientation.fromEuler(yaw, pitch, roll)
     return MeshVolumeRegion(
-        base_mesh(e["base"]), dimensions=tuple(e["dims"]), position=Vector(*real_pos(pos)),
-        rotation=Orientation.fromEuler(yaw, pitch, roll),
+        base_mesh(e["base"]), dimensions=tuple(e["dims"]), position=Vector(*move(real_pos(pos))),
+        rotation=G * rot if g else rot,
     )
 
 
@@ -373,7 +389,7 @@ def random_pair_cases(rng, n, start_id=1):
         proc = "isect" if rng.random() < 0.7 else "dist"
         api = "obj" if (proc == "dist" or rng.random() < 0.7) else "reg"
         cases.append({"id": start_id + k, "proc": proc, "api": api, "a": a, "qa": qa, "ra": ra, "pa": pa,
-                      "b": b, "qb": qb, "rb": rb, "pb": pb, "poly": 0})
+                      "b": b, "qb": qb, "rb": rb, "pb": pb, "poly": 0, "g": 0})
     return cases
 
 
@@ -386,26 +402,33 @@ def random_cont_cases(rng, n, start_id=1):
         qb = 1
         if rng.random() < 0.2:  # a box tilted only through its parent frame
             b, rb, qb = rng.choice(TILTABLE[:4]), rng.choice((1, 2, 3, 4)), rng.randrange(5, 25)
+        xtr = rng.random() < 0.11
+        if xtr:  # a large object at an extremity of a large non-convex container, generic frame
+            b, rb, qb = rng.choice(BIGOBJ), rng.choice((1, 2, 3, 4, 1, 2, 3, 4, rng.randrange(1, 25))), 1
         sb = _span(b, compose(qb, rb))
-        if rng.random() < 0.65:
-            a = rng.choice(ROOMS)
+        if xtr or rng.random() < 0.65:
+            a = CAT_INDEX["hallL"] if xtr else rng.choice(ROOMS)
             ra = rng.randrange(1, 25) if rng.random() < 0.5 else rng.choice((1, 2, 3, 4))
             pa = [_even(rng.randint(-6, 6)) for _ in range(3)]
             sa = _span(a, ra)
+            g = 1 if xtr or rng.random() < 0.4 else 0   # whole configuration in the generic (3/5, 4/5) frame
+            edge = xtr or rng.random() < 0.5            # object near the extremities of the container
             pb = []
             for i in range(3):
                 inner = max(0, int(sa[i] - sb[i]))
                 u = rng.random()
-                if u < 0.7:
+                if edge and i < 2:
+                    d = rng.choice((-1, 1)) * (inner - rng.choice((2, 2, 2, 4, -2) if xtr else (0, 2, 2, 4)))
+                elif u < 0.7:
                     d = rng.randint(-inner - 2, inner + 2)
                 else:
                     d = rng.randint(-int(sa[i] + sb[i]) - 4, int(sa[i] + sb[i]) + 4)
                 pb.append(pa[i] + _even(d))
             cases.append({"id": start_id + k, "proc": "cont", "api": "reg", "a": a, "qa": 1, "ra": ra, "pa": pa,
-                          "b": b, "qb": qb, "rb": rb, "pb": pb, "poly": 0})
+                          "b": b, "qb": qb, "rb": rb, "pb": pb, "poly": 0, "g": g, "tag": "xtr" if xtr else ""})
         else:
             pi = rng.randrange(1, len(POLYS) + 1)
             pb = [_even(rng.randint(-14, 14)), _even(rng.randint(-14, 14)), _even(rng.randint(-20, 20))]
             cases.append({"id": start_id + k, "proc": "foot", "api": "reg", "a": 1, "qa": 1, "ra": 1, "pa": [0, 0, 0],
-                          "b": b, "qb": qb, "rb": rb, "pb": pb, "poly": pi})
+                          "b": b, "qb": qb, "rb": rb, "pb": pb, "poly": pi, "g": 0})
     return cases
